@@ -1100,6 +1100,33 @@ func main() {
 	}
 	corr := !cfg.Search
 
+	// wire's AddTxHash refuses the hash when the message already holds maxTxPerBlock() = MaxBlockPayload()/10 + 1
+	// hashes; calcBlock discards that error.  The models append every hash and the theorems assume at most
+	// add_tx_hash_cap = 12800001 transactions (Merkle.v): check the number (formula always, behaviour in the
+	// thorough tier).
+	const addTxHashCap = 12800001
+	if uint64(wire.MaxBlockPayload())/10+1 != addTxHashCap {
+		rep.Violate("C11:dep:add_tx_hash_cap", "wire.MaxBlockPayload()/10 + 1 is not the add_tx_hash_cap the theorems assume",
+			map[string]interface{}{"MaxBlockPayload": wire.MaxBlockPayload(), "assumed_cap": addTxHashCap})
+	}
+	if cfg.Thorough() {
+		var m wire.MsgMerkleBlock
+		m.Hashes = make([]*chainhash.Hash, 0, addTxHashCap+1)
+		h := &chainhash.Hash{}
+		var firstErr int = -1
+		for i := 0; i < addTxHashCap+1; i++ {
+			if err := m.AddTxHash(h); err != nil {
+				firstErr = i
+				break
+			}
+		}
+		rep.Extra["add_tx_hash_first_refusal_at"] = firstErr
+		if firstErr != addTxHashCap {
+			rep.Violate("C11:dep:add_tx_hash_cap", "MsgMerkleBlock.AddTxHash does not accept exactly add_tx_hash_cap hashes",
+				map[string]interface{}{"first_refusal_at": firstErr, "assumed_cap": addTxHashCap})
+		}
+	}
+
 	// node hash validation (Coq SHA-256 against the Go dependency)
 	rn := rng.Fork("nodehash")
 	for i := 0; i < 4; i++ {
@@ -1282,8 +1309,8 @@ func main() {
 					continue
 				}
 			}
-			// Coq: the sizes around 256 with the selections that put 255/256/257 chosen transactions below one node
-			c := corr && ((n == 256 && name == "full") || (n == 257 && (name == "full" || name == "first_256_and_last")))
+			// Coq: n = 256 all chosen (256 chosen transactions below one node); thorough: also n = 257 (about 15 s of VM time each)
+			c := corr && ((n == 256 && name == "full") || (cfg.Thorough() && n == 257 && (name == "full" || name == "first_256_and_last")))
 			runSubset(bk, st[name], rb, c, false, "big:"+name)
 		}
 	}
